@@ -63,7 +63,9 @@ EXPLANATION = (
     "set of first-burst frames (or owned frames for frame-by-frame tasks) of "
     "the corresponding trxcon channel in every layout the lookup can select; "
     "a transcription of TS 45.002 clause 7 is compared with the trxcon "
-    "tables as a third witness. This covers every task, channel combination, "
+    "tables as a third witness. Which channel an lchan type is (l1sched_lchan_desc[].chan_nr / "
+    "link_id, folded) is compared with the channel number that selects the firmware task the lchan's "
+    "frames are compared with, and must be unique inside every layout mask. This covers every task, channel combination, "
     "timeslot and frame number of the multiframe cycle, not samples.")
 ASSUMPTIONS = [
     "spec/mframe_map.json: hand-written correspondence firmware task <-> trxcon (combination, logical channel, direction), meaning of the tdma_sched item sets, DSP command latency of one TDMA frame",
@@ -78,6 +80,7 @@ ASSUMPTIONS = [
     "execution of mframe_schedule_set: l1s.current_time is a consistent struct gsm_time (kept so by l1s_time_inc / gsm_fn2gsmtime): t2 == fn mod 26, t3 == fn mod 51, tc == (fn div 51) mod 8; t1 is not modelled",
     "spec/ccch_mode_tasks.json: the trxcon channel combination that belongs to each CCCH mode of L1CTL_CCCH_MODE_REQ and the logical channels the request is responsible for; the request's mode is the member ccch_mode of struct l1ctl_ccch_mode_req read from the message payload; the word mframe_set() writes is the one mframe_schedule() runs the tasks from, bit i = task i; functions without a body in l23_api.c / mframe_sched.c and stores through pointers that do not point into the modelled global objects do not change that word; functions that (transitively, as far as visible) mention no object with static storage are not entered",
     "l1sched_mframe_layout reading a static file-scope table that only load-time constructors (attribute constructor, referenced by no code) write: the constructors run at most once each, in definition order, before or between lookups; the lookup is decided for the initialiser contents and for the contents after every prefix of the constructors",
+    "C11.R7: trxcon identifies the channel of an lchan type only by l1sched_lchan_desc[type].chan_nr == (channel number & RSL_CHAN_NR_MASK = 0xf8) and .link_id (l1sched_set_lchans, l1sched_find_lchan_by_chan_nr, `chan_nr | tn` in indications; that one of the first two still reads the field is checked); bit 6 (0x40) of an RSL / L1CTL link identifier means SACCH; GSM_NBITS_NB_{GMSK,8PSK}_PAYLOAD (burst buffer sizes, not read by the rule) are defined for parsing sched_lchan_desc.c",
     "thorough tier: trxcon source files that clang cannot parse here are covered by an identifier scan of their comment-stripped text only (they must not mention `frames`, l1sched_configure_ts, l1sched_mframe_layout)",
 ]
 
@@ -5007,6 +5010,147 @@ def t_configure_callers(L, T, lookup, tus):
     L.floor("C11.R1", "l1sched_configure_ts call sites", n, 4)
 
 
+# =================================================================== R7: lchan type <-> channel number
+
+F_DESC = "src/host/trxcon/src/sched_lchan_desc.c"
+# libosmocore constants the analysis headers lack; they only size burst buffers (not read by this rule)
+DESC_DEFINES = ("GSM_NBITS_NB_GMSK_PAYLOAD=116", "GSM_NBITS_NB_8PSK_PAYLOAD=348")
+LID_SACCH = 0x40          # RSL / L1CTL link identifier: bit 6 set = SACCH
+
+
+class LchanDesc:
+    """l1sched_lchan_desc[]: per lchan type the folded (chan_nr, link_id), converted to the fields' types"""
+
+    def __init__(self, L, T):
+        self.tu = tu = TU(L.repo, "trxcon", "src/sched_lchan_desc.c", defines=DESC_DEFINES, L=L)
+        fields = tu.record_fields("l1sched_lchan_desc")
+        names = [n for n, _ in fields]
+        for need in ("chan_nr", "link_id"):
+            if need not in names:
+                raise AnalysisError("struct l1sched_lchan_desc lost field %s" % need)
+        v = tu.var("l1sched_lchan_desc")
+        qt = v.get("type", {}).get("qualType", "")
+        if "struct l1sched_lchan_desc" not in qt or "const" not in qt:
+            raise AnalysisError("l1sched_lchan_desc[] is not a const array of struct l1sched_lchan_desc (%s)" % qt)
+        es, filler = elems(initlist(v, "l1sched_lchan_desc"))
+        if filler or len(es) != T.chan_max or array_extent(qt) != T.chan_max:
+            raise AnalysisError("l1sched_lchan_desc[]: %d initialisers%s for %d lchan types; positions not recoverable" % (
+                len(es), " (sparse)" if filler else "", T.chan_max))
+        self.line = tu.line(v)
+        self.rows = {}
+        for i, e in enumerate(es):
+            e = strip(e)
+            if kind(e) == "ImplicitValueInitExpr":
+                self.rows[i] = {"chan_nr": 0, "link_id": 0, "line": self.line}
+                continue
+            if kind(e) != "InitListExpr" or len(kids(e)) != len(fields):
+                raise AnalysisError("l1sched_lchan_desc[%d] has an unexpected shape" % i)
+            r = {"line": tu.line(e)}
+            for f in ("chan_nr", "link_id"):
+                x = as_int(tu.init_value(kids(e)[names.index(f)]), "l1sched_lchan_desc[%d].%s" % (i, f))
+                r[f] = cwrap(tu, x, dict(fields)[f])
+            self.rows[i] = r
+
+
+def desc_readers(tu):
+    """functions of the TU that read .chan_nr of a struct l1sched_lchan_desc"""
+    out = set()
+    for fname, f in body_funcs(tu):
+        for n in walk(tu.body(f)):
+            if kind(n) == "MemberExpr" and n.get("name") == "chan_nr" and \
+                    "l1sched_lchan_desc" in strip(kids(n)[0]).get("type", {}).get("qualType", ""):
+                out.add(fname)
+    return out
+
+
+def r7_lchan_identity(L, T, D, lookup, M, C, tu_trx):
+    """C11.R7 -- decides the first clause ("the frames in which the firmware starts a block of a channel are
+    exactly the frames the trxcon layout gives to THAT channel") for the step that says which channel an lchan
+    type of a layout is.  trxcon knows a channel only by l1sched_lchan_desc[type].chan_nr / .link_id:
+    l1sched_set_lchans() activates the lchans of a timeslot whose chan_nr equals the assigned channel number
+    without its timeslot bits, l1sched_find_lchan_by_chan_nr() routes uplink data by (chan_nr, link_id) and data
+    indications carry `chan_nr | tn` and link_id.  The firmware side of the same relation is C11.R5 (channel
+    number -> task) and spec/mframe_map.json (task rows without / with MF_F_SACCH <-> lchan type), whose frame
+    sets C11.R4 compares.  So for every lchan type X a mapped task T is compared with: X.chan_nr == cbits << 3
+    for the channel number cbits that selects T, X.link_id has the SACCH bit iff X stands for T's SACCH rows,
+    and in every layout the lookup selects for T no other lchan of the layout's mask carries X's (chan_nr,
+    link_id) -- otherwise the frames the layout gives to that lchan belong, in trxcon, to X's channel too
+    while the firmware starts no block of that channel there (or X's frames belong to no / another channel)."""
+    if not (desc_readers(tu_trx) & {"l1sched_set_lchans", "l1sched_find_lchan_by_chan_nr"}):
+        raise AnalysisError("neither l1sched_set_lchans() nor l1sched_find_lchan_by_chan_nr() reads l1sched_lchan_desc[].chan_nr "
+                            "any more; how trxcon ties lchan types to channel numbers is outside the model of C11.R7")
+    tasks = {k: v for k, v in M.get("tasks", {}).items() if not k.startswith("_")}
+    want = {}         # lchan name -> {"cb": set, "cls": set, "tasks": [...]}
+    per_task = {}     # task -> {cbits: [tn...]}
+    for task, spec in tasks.items():
+        cbs = {}
+        for cb in range(32):
+            for tn in range(8):
+                ref = chan_nr_reference(C, cb, tn)
+                if ref is not None and task in ref["tasks"]:
+                    cbs.setdefault(cb, []).append(tn)
+        per_task[task] = cbs
+        if not cbs:
+            continue      # selected by L1CTL_CCCH_MODE_REQ, not by a channel number (C11.R6)
+        for cls in ("plain", "sacch"):
+            if cls in spec:
+                if spec[cls] not in T.lchan:
+                    raise AnalysisError("spec/mframe_map.json names unknown logical channel %s" % spec[cls])
+                w = want.setdefault(spec[cls], {"cb": set(), "cls": set(), "tasks": []})
+                w["cb"] |= set(cbs)
+                w["cls"].add(cls)
+                w["tasks"].append(task)
+    good = set()
+    for lname in sorted(want, key=lambda k: T.lchan[k]):
+        w = want[lname]
+        if len(w["cb"]) != 1 or len(w["cls"]) != 1:
+            raise AnalysisError("reference tables give %s more than one channel number / role: %s" % (lname, sorted(w["tasks"])))
+        cb, cls = min(w["cb"]), min(w["cls"])
+        r = D.rows[T.lchan[lname]]
+        short = lname.replace("L1SCHED_", "")
+        who = "%s rows of %s" % ("SACCH" if cls == "sacch" else "non-SACCH", "/".join(sorted(w["tasks"])))
+        L.ob("C11.R7", F_DESC, "l1sched_lchan_desc[]",
+             "[%s].chan_nr is the channel number (without timeslot) that selects the firmware task whose frames "
+             "are compared with this lchan (%s)" % (short, who),
+             "0x%02x" % (cb << 3), "0x%02x" % r["chan_nr"], r["chan_nr"] == cb << 3, r["line"])
+        sacch = bool(r["link_id"] & LID_SACCH)
+        L.ob("C11.R7", F_DESC, "l1sched_lchan_desc[]",
+             "[%s].link_id has the SACCH bit (0x40) iff the lchan stands for the task's MF_F_SACCH rows (%s)" % (short, who),
+             "set" if cls == "sacch" else "clear", "set (0x%02x)" % r["link_id"] if sacch else "clear (0x%02x)" % r["link_id"],
+             sacch == (cls == "sacch"), r["line"])
+        if r["chan_nr"] == cb << 3 and sacch == (cls == "sacch"):
+            good.add(lname)
+    L.floor("C11.R7", "lchan types compared with a firmware channel number", len(want), 30)
+    npair = 0
+    for task in sorted(tasks, key=lambda k: k):
+        spec = tasks[task]
+        for cb, tns in sorted(per_task[task].items()):
+            for lay, cfgname, ltns in target_layouts(T, M, lookup, spec["targets"]):
+                if not set(ltns) & set(tns):
+                    continue
+                members = [i for i in range(T.chan_max) if lay["lchan_mask"] >> i & 1]
+                for cls in ("plain", "sacch"):
+                    lname = spec.get(cls)
+                    if lname is None or lname not in good:
+                        continue      # a wrong identity of the lchan itself is reported above
+                    x = D.rows[T.lchan[lname]]
+                    same = sorted(T.lname.get(i, "lchan#%d" % i).replace("L1SCHED_", "") for i in members
+                                  if (D.rows[i]["chan_nr"], D.rows[i]["link_id"]) == (x["chan_nr"], x["link_id"]))
+                    npair += 1
+                    L.ob("C11.R7", F_DESC, "l1sched_lchan_desc[]",
+                         "lchans in the mask of layout %s that answer to chan_nr 0x%02x link_id 0x%02x (%s of %s)" % (
+                             T.label(lay), x["chan_nr"], x["link_id"], "SACCH" if cls == "sacch" else "main channel", task),
+                         [lname.replace("L1SCHED_", "")], same, same == [lname.replace("L1SCHED_", "")], x["line"])
+    if len(lookup) >= 64:
+        L.floor("C11.R7", "(task, role, layout) channel identities", npair, 50)
+    L.extra["lchan_identity"] = {"lchan_types": len(want), "layout_identities": npair}
+
+
+def s_lchan_ident(L, T, r2, M, tu_trx):
+    D = LchanDesc(L, T)
+    r7_lchan_identity(L, T, D, r2[0], M, load_spec("chan_nr_tasks.json"), tu_trx)
+
+
 # =================================================================== run
 
 def layout_periods(T):
@@ -5125,6 +5269,7 @@ def run(L, tier):
     tu_l23 = L.stage(s_l23_tu, L)
     L.stage(s_chan_nr, L, FW, M, tu_l23)
     L.stage(s_ccch_mode, L, FW, M, tu_l23)
+    L.stage(s_lchan_ident, L, T, r2, M, tu_trx)
     if T and FW:
         L.extra["tables"] = {
             "trxcon_layouts": len(T.layouts),
